@@ -101,6 +101,8 @@ func Gen(profile string, seed uint64) (*Config, Plan) {
 		kinds[k] = g.Chance(0.6)
 	}
 	kinds["stopstart"] = g.Chance(0.35)
+	kinds["lossy"] = g.Chance(0.5)
+	kinds["diskerr"] = false
 
 	switch profile {
 	case ProfCore:
@@ -125,6 +127,7 @@ func Gen(profile string, seed uint64) (*Config, Plan) {
 		}
 		nFaults = pick(g, 4, 8, 12, 16)
 	case ProfDurability:
+		kinds["diskerr"] = g.Chance(0.4)
 		cfg.LostUnsynced = g.Chance(0.6)
 		cfg.ImageAtAck = 1
 		kinds["crash"] = true
@@ -230,6 +233,15 @@ func Gen(profile string, seed uint64) (*Config, Plan) {
 		if profile != ProfSnapshot && profile != ProfSnapFifo {
 			kinds["crashop"] = true
 		}
+		if profile == ProfCrashSweep {
+			kinds["diskerr"] = g.Chance(0.3)
+		}
+		if profile == ProfSnapshot && g.Chance(0.3) {
+			// A third of the snapshot runs carry the membership workload too ("and carries the
+			// configuration committed at i").
+			cfg.Membership = true
+			cfg.Spares = pick(g, 1, 2)
+		}
 		if profile == ProfLiveness && g.Chance(0.3) {
 			cfg.SnapThreshold = 0
 		}
@@ -329,6 +341,24 @@ func Gen(profile string, seed uint64) (*Config, Plan) {
 				st.Str = "leader"
 			}
 			plan = append(plan, st)
+		case "lossy":
+			// Flaky links: most messages are lost, now and then one gets through.
+			var to []string
+			for _, id := range ids {
+				if id != node && g.Chance(0.6) {
+					to = append(to, id)
+				}
+			}
+			st := Step{AtMs: at, Kind: StepLossy, Node: node, Nodes: to, A: int64(pick(g, 500, 800, 900, 950))}
+			if g.Chance(0.4) {
+				st.Str = "leader"
+			}
+			plan = append(plan, st)
+			plan = append(plan, Step{AtMs: at + g.Range(int64(cfg.ElectionMs), 10*int64(cfg.ElectionMs)), Kind: StepHeal})
+		case "diskerr":
+			// EIO or ENOSPC at the k-th storage operation from now: the repository's answer to any
+			// storage error is logger.Fatal (fail-stop); the node is restarted later like a crashed one.
+			plan = append(plan, Step{AtMs: at, Kind: StepDiskErr, Node: node, A: int64(g.Intn(2)), B: g.Range(1, 25)})
 		case "stopstart":
 			st := Step{AtMs: at, Kind: StepStopStart, Node: node, A: g.Range(0, 3*int64(cfg.ElectionMs))}
 			if g.Chance(0.4) {
@@ -338,6 +368,9 @@ func Gen(profile string, seed uint64) (*Config, Plan) {
 		case "burst":
 			plan = append(plan, Step{AtMs: at, Kind: StepBurst, A: g.Range(2, 12)})
 		}
+	}
+	if (profile == ProfReads || profile == ProfLease || profile == ProfElection) && cfg.Voters >= 3 && g.Chance(0.4) {
+		cfg.Scenario = "lagging-voter"
 	}
 	if profile == ProfReads || profile == ProfLease {
 		// Bias: mute the current leader (outgoing only) a few times, so that it stays leader in its
